@@ -251,6 +251,43 @@ class Interp:
                 raise AnalysisError(f"path budget exceeded ({len(paths)}) at line {getattr(st, 'lineno', 0)}")
         return paths
 
+    def branch(self, test, p: Path) -> list:
+        """Decide a branch condition with short-circuit semantics: `a and b`, `a or b`, `not a` fork on their
+        atomic operands in evaluation order, so that every path knows each atomic condition it depends on."""
+        if isinstance(test, ast.BoolOp):
+            is_and = isinstance(test.op, ast.And)
+            out, live = [], [p]
+            for v in test.values:
+                nxt = []
+                for q in live:
+                    for q2, t in self.branch(v, q):
+                        if q2.status != "normal":
+                            out.append((q2, False))
+                        elif t == is_and:
+                            nxt.append(q2)          # `and`: operand true / `or`: operand false → keep evaluating
+                        else:
+                            out.append((q2, t))     # short-circuit
+                live = nxt
+            out.extend((q, is_and) for q in live)
+            return out
+        if isinstance(test, ast.UnaryOp) and isinstance(test.op, ast.Not):
+            return [(q, (not t) if q.status == "normal" else False) for q, t in self.branch(test.operand, p)]
+        out = []
+        for q, c in self.ev(test, p):
+            if q.status != "normal":
+                out.append((q, False))
+                continue
+            k = q.known(c)
+            if k is None:
+                q2 = q.copy()
+                q.assume(c, True)
+                q2.assume(c, False)
+                out.append((q, True))
+                out.append((q2, False))
+            else:
+                out.append((q, k))
+        return out
+
     def _emit(self, p: Path, ev: Event) -> Event:
         ev.ctx = tuple(p.ctx)
         ev.ncond = len(p.cond_log)
@@ -313,21 +350,13 @@ class Interp:
             return out
         if isinstance(st, ast.If):
             out = []
-            for q, c in self.ev(st.test, p):
+            for q, truth in self.branch(st.test, p):
                 if q.status != "normal":
                     out.append(q)
-                    continue
-                k = q.known(c)
-                if k is True:
+                elif truth:
                     out.extend(self.exec_block(st.body, [q]))
-                elif k is False:
-                    out.extend(self.exec_block(st.orelse, [q]))
                 else:
-                    q2 = q.copy()
-                    q.assume(c, True)
-                    q2.assume(c, False)
-                    out.extend(self.exec_block(st.body, [q]))
-                    out.extend(self.exec_block(st.orelse, [q2]))
+                    out.extend(self.exec_block(st.orelse, [q]))
             return out
         if isinstance(st, (ast.For, ast.AsyncFor)):
             out = []
